@@ -76,6 +76,9 @@ pub fn check(bytes: &[u8], _ctx: &Ctx) -> Verdict {
     let mut once = strats.clone();
     once.truncate(h);
     let named = glue::read_named(&once);
+    crate::runner::note(|| format!("game {}", built.tree.brief()));
+    crate::runner::note(|| format!("profile ({}) {:?}", source, before));
+    crate::runner::note(|| format!("truncate({:e}) [{}] -> {:?}", h, hkind, named));
     // support and proportional rescaling where some action exceeds h
     let mut lost_action = false;
     let mut emptied = false;
@@ -171,9 +174,7 @@ pub fn check(bytes: &[u8], _ctx: &Ctx) -> Verdict {
 }
 
 pub fn describe(bytes: &[u8]) -> Value {
-    let (mut s, mut gs) = crate::stream::split(bytes, 128);
-    let built = gen_built(&mut gs, &GenCfg::small());
-    json!({"family": built.family, "game": built.tree.brief(), "note": "profile source and threshold follow in the stream"})
+    crate::runner::describe_by_running(check, bytes)
 }
 
 pub fn prop() -> Prop {
